@@ -157,7 +157,7 @@ def tlc(wd, module, cfg, env=None, workers=8, heap="8g", timeout=3600, extra=(),
     if env:
         e.update(env)
     meta = os.path.join(wd, "meta_" + module + "_" + str(random.randrange(10**9)))
-    cmd = ["timeout", str(timeout), "java", "-XX:+UseParallelGC", "-Xmx" + heap, "-cp", TLA_JAR, "tlc2.TLC",
+    cmd = ["timeout", str(timeout), "java", "-Xss1g", "-XX:+UseParallelGC", "-Xmx" + heap, "-cp", TLA_JAR, "tlc2.TLC",
            "-workers", str(workers), "-metadir", meta, "-cleanup", "-noGenerateSpecTE",
            "-config", cfg] + list(extra) + [module + ".tla"]
     r = subprocess.run(cmd, cwd=wd, env=e, stdout=subprocess.PIPE, stderr=subprocess.STDOUT, text=True)
